@@ -125,6 +125,14 @@ def downsample_rule(r, rule):
     s2 = r.A.summary(D + "downsample")
     r.rep.analysed(D + "downsample")
     sp2 = r.A.summarize_source(C17_SPEC, "downsample", "pyrepseq.distance")
+    # lint: whatever generator draws the sample, `choice` draws with replacement unless told otherwise
+    for x in {x for x in walk(("t", strip_all(s2.ret))) if head(x) == "call"}:
+        f = strip(x[1])
+        if (head(f) == "glob" and f[1].endswith(".choice")) or (head(f) == "attr" and f[2] == "choice"):
+            rp = dict(x[3]).get("replace", x[2][2] if (head(f) == "glob" and len(x[2]) > 2) or (head(f) == "attr" and len(x[2]) > 2) else None)
+            okr = rp is not None and is_const(strip(rp), False)
+            r.rep.ob(rule, D + "downsample", okr, "the sample is drawn without replacement (no element twice)", where_of(r.P, s2.func, s2.func.node), expected="choice(..., replace=False)",
+                     found=show(rp, 20) if rp is not None else "replace absent (library default: with replacement)", key="downsample replace", lint=True)
     check_equiv(r.rep, rule, D + "downsample", "down-sampling keeps the object when short enough, else draws exactly maxseqs elements without replacement", subst(s2.ret, canon_params(s2)),
                 subst(sp2.ret, canon_params(sp2)), where_of(r.P, s2.func, s2.func.node), eq=c17_equiv(c17_vec), key="downsample")
     r.rep.floor(rule, 1)
